@@ -1,11 +1,12 @@
 """C20 graph clause, bounded: validate_stage_graph succeeds exactly for acyclic graphs with unique, known references and
-no self edge; topological_sort lists every stage after all of its dependencies.
+no self edge, and Workflow.create gives the same verdict; topological_sort lists every stage after all of its dependencies.
 Bound: all graphs with <= 3 stages (ref ids from {a,b,c}, requisites any subset of {a,b,c,z}); with 4 stages: all graphs
 with distinct refs a..d and requisites any subset of {a,b,c,d,z} in the thorough tier, a seeded sample of them in quick."""
 import itertools
 import random
 
 from _b import *
+from stabilize.models.workflow import Workflow
 from stabilize.dag.topological import CircularDependencyError, InvalidStageGraphError, topological_sort, validate_stage_graph
 from stabilize.models.stage import StageExecution
 
@@ -54,6 +55,19 @@ def check(refs, reqs, failures):
         return want
     if got != want:
         failures.append({"refs": refs, "reqs": [sorted(q) for q in reqs], "validate_ok": got, "spec_ok": want, "exc": exc})
+    # "creating a workflow succeeds exactly when ...": the public factory gives the same verdict and keeps every stage
+    try:
+        wf = Workflow.create("app", "wf", list(stages))
+        made = True
+    except (InvalidStageGraphError, CircularDependencyError):
+        made = False
+    except BaseException as e:  # noqa
+        failures.append({"refs": refs, "reqs": [sorted(q) for q in reqs], "why": f"Workflow.create raised {type(e).__name__}: {e}"})
+        return want
+    if made != want:
+        failures.append({"refs": refs, "reqs": [sorted(q) for q in reqs], "create_ok": made, "spec_ok": want})
+    elif made and [s.ref_id for s in wf.stages] != list(refs):
+        failures.append({"refs": refs, "why": "Workflow.create changed the stage list", "got": [s.ref_id for s in wf.stages]})
     if want:
         order = topological_sort(stages)
         pos = {s.ref_id: i for i, s in enumerate(order)}
